@@ -655,6 +655,32 @@ theorem checker_sound_entry_addr (need : String → String → Nat → List Nat)
     ¬ Ob (G.withEntries (addrEntries ids taken)) true 0 F0 0 c F md :=
   fun hobs => checker_sound_entry need G C h F0 c F md fn nm hlt hc R hR hdis (ob_entries_mono (addrEntries_sub hcov) hobs)
 
+/-! ### the `mayGrow` summary -/
+
+/-- ★ a callee that the slice transcribes as "no event" never reaches - through direct calls or type-compatible indirect
+    calls, to any depth - a function that writes the flag word -/
+theorem benign_never_writes {may : Nat → Bool} {edges : List (Nat × Nat)} {benign writers : List Nat}
+    (h : mayGrowOK may edges benign writers = true) {g w : Nat} (hg : g ∈ benign) (hp : CallPath edges g w) : w ∉ writers := by
+  unfold mayGrowOK at h
+  simp only [Bool.and_eq_true, List.all_eq_true] at h
+  obtain ⟨⟨he, hb⟩, hw⟩ := h
+  have hng : may g = false := by
+    have := hb g hg
+    simpa using this
+  have hnw : may w = false := by
+    clear hg
+    induction hp with
+    | refl a => exact hng
+    | @step a b c hab _ ih =>
+      apply ih
+      have := he (a, b) hab
+      simp only [hng, Bool.false_or] at this
+      simpa using this
+  intro hmem
+  have := hw w hmem
+  rw [hnw] at this
+  cases this
+
 /-! ### non-vacuity -/
 
 /-- a two-function graph: entry `f0` asserts fs-write then calls `f1`, which removes a file -/
